@@ -1,2 +1,170 @@
-From Wz Require Import C19.Base C19.Gen C19.Model C19.Proofs.
+(* C19 property theorems.  Nothing but statements, each closed by `exact <lemma>.`, with
+   Print Assumptions beneath.  Definitions: C19/Model.v (generated comparisons, constants and the
+   chunked-framing decision: C19/Gen.v, regenerated from serving.py on every run); spec side
+   (ref_dechunk / ref, cenc / fenc / wire / body, chop, sumN, pct_enc) at the end of Model.v;
+   Dof / Cof / Tof (deliverable data, completeness, tail of a reference decoding), qpart / qtext /
+   query_ok in Proofs.v. *)
+From Wz Require Import lib.Bytes lib.Utf8 C19.Base C19.Gen C19.Model C19.Proofs.
 Open Scope N_scope.
+
+(* the chunk-size pattern, its flags and the int() base are those of the current source *)
+Theorem C19_source_pins :
+  list_eqb chunk_size_re_text [91; 48; 45; 57; 65; 45; 70; 97; 45; 102; 93; 43] && (chunk_size_re_flags =? 256)
+  && (dc_int_base =? 16) = true.
+Proof. exact source_pins. Qed.
+Print Assumptions C19_source_pins.
+
+(* the reference decoder accepts every well-framed encoding: any hexadecimal spelling of the sizes
+   (letter case, leading zeros, blanks around), LF or CRLF after size lines and data, any zero
+   chunk spelling, and leaves what follows untouched *)
+Theorem C19_wellframed_reference : forall cs f tail, forallb cenc_ok cs = true -> fenc_ok f = true ->
+  ref (wire cs f tail) = (body cs, true, tail).
+Proof. exact ref_wire. Qed.
+Print Assumptions C19_wellframed_reference.
+
+(* de-chunking is exact: for every chunk list, every such encoding and EVERY sequence of read
+   sizes, no read fails, the reads return the body cut at the requested sizes, and once more than
+   the body was asked for the stream is finished with the cursor just past the final line break
+   (what follows is untouched) and every further read returns nothing *)
+Theorem C19_dechunk : forall cs f tail sizes, forallb cenc_ok cs = true -> fenc_ok f = true ->
+  match dc_reads (dst_init (wire cs f tail)) sizes with
+  | (outs, e, st) =>
+    e = None /\ outs = chop sizes (body cs) /\
+    (lenN (body cs) < sumN sizes -> d_done st = true /\ d_rest st = tail /\
+                                    forall n, dc_read st n = Ok ([], st))
+  end.
+Proof. exact dechunk_exact. Qed.
+Print Assumptions C19_dechunk.
+
+Example C19_dechunk_example :
+  let c1 := {| c_pad1 := []; c_hex := [48; 65]; c_pad2 := [32]; c_t1 := [LF];
+               c_data := [1; 2; 3; 4; 5; 6; 7; 8; 9; 10]; c_t2 := CRLF |} in
+  let c2 := {| c_pad1 := [9]; c_hex := [50]; c_pad2 := []; c_t1 := CRLF; c_data := [11; 12]; c_t2 := [LF] |} in
+  let f := {| f_pad1 := []; f_zeros := [48; 48]; f_pad2 := []; f_t1 := CRLF; f_t2 := [LF] |} in
+  forallb cenc_ok [c1; c2] && fenc_ok f = true /\
+  dc_reads (dst_init (wire [c1; c2] f [78])) [3; 8; 5; 1]
+  = ([[1; 2; 3]; [4; 5; 6; 7; 8; 9; 10; 11]; [12]; []], None, {| d_len := 0; d_done := true; d_rest := [78] |}).
+Proof. split; vm_compute; reflexivity. Qed.
+Print Assumptions C19_dechunk_example.
+
+(* ANY input, any read sizes: only OSError is ever raised (never out of fuel), an error means the
+   framing is not complete, the data delivered is cut from the front of what the reference decoder
+   finds deliverable, and the stream only finishes on a complete framing, after delivering all of it,
+   with the cursor at the reference tail *)
+Theorem C19_dechunk_safe : forall w sizes,
+  match dc_reads (dst_init w) sizes with
+  | (outs, e, st) =>
+    (exists rest, Dof (ref w) = concat outs ++ rest) /\
+    outs = chop (firstn (length outs) sizes) (Dof (ref w)) /\
+    match e with
+    | None => length outs = length sizes
+    | Some e => e = OSErrorE /\ Cof (ref w) = false
+    end /\
+    (d_done st = true -> Cof (ref w) = true /\ concat outs = Dof (ref w) /\ d_rest st = Tof (ref w))
+  end.
+Proof. exact dechunk_safe. Qed.
+Print Assumptions C19_dechunk_safe.
+
+(* malformed framing (truncated, negative, non-hex, unterminated: whatever makes the reference
+   framing incomplete) is reported as an I/O error as soon as more than the genuine chunk data is
+   asked for, and what was delivered before is a prefix of that data *)
+Theorem C19_dechunk_malformed : forall w sizes, Cof (ref w) = false -> lenN (Dof (ref w)) < sumN sizes ->
+  match dc_reads (dst_init w) sizes with
+  | (outs, e, st) => e = Some OSErrorE /\ exists rest, Dof (ref w) = concat outs ++ rest
+  end.
+Proof. exact dechunk_malformed. Qed.
+Print Assumptions C19_dechunk_malformed.
+
+(* the classes named by the property are incomplete for the reference decoder:
+   5 CRLF ab (truncated) / -2 (negative) / 0x2, +2, 1_0, g (non-hex) / 2 CRLF ab XX (unterminated) / empty *)
+Example C19_dechunk_malformed_classes :
+  ref [53; 13; 10; 97; 98] = ([97; 98], false, [])
+  /\ Cof (ref [45; 50; 13; 10; 97; 98; 13; 10; 48; 13; 10; 13; 10]) = false
+  /\ Cof (ref [48; 120; 50; 13; 10; 97; 98; 13; 10; 48; 13; 10; 13; 10]) = false
+  /\ Cof (ref [43; 50; 13; 10; 97; 98; 13; 10; 48; 13; 10; 13; 10]) = false
+  /\ Cof (ref [49; 95; 48; 13; 10]) = false
+  /\ Cof (ref [103; 13; 10]) = false
+  /\ ref [50; 13; 10; 97; 98; 88; 88; 48; 13; 10; 13; 10] = ([97; 98], false, [])
+  /\ Cof (ref []) = false
+  /\ dc_reads (dst_init [53; 13; 10; 97; 98]) [2; 3] = ([[97; 98]], Some OSErrorE, {| d_len := 3; d_done := false; d_rest := [] |}).
+Proof. vm_compute. repeat split. Qed.
+Print Assumptions C19_dechunk_malformed_classes.
+
+(* response framing: whatever run_wsgi writes is head ++ body; without chunked framing the body is
+   the concatenation of the application's pieces; with it, the reference decoder reads exactly
+   that concatenation back, complete, leaving whatever follows *)
+Theorem C19_response_framing : forall proto method expect server date status headers pieces out,
+  respond proto method expect server date status headers pieces = Some out ->
+  exists code msg, split_status status = Some (code, msg) /\
+    let chunked := uses_chunked proto method code headers in
+    out = response_head proto expect server date code msg headers chunked ++ response_body chunked pieces /\
+    (chunked = false -> response_body chunked pieces = concat pieces) /\
+    (chunked = true -> forall tail, ref (response_body chunked pieces ++ tail) = (concat pieces, true, tail)).
+Proof. exact response_framing. Qed.
+Print Assumptions C19_response_framing.
+
+(* and the request-side decoder model reads a chunked response body back under every read pattern *)
+Theorem C19_response_roundtrip : forall pieces tail sizes,
+  match dc_reads (dst_init (response_body true pieces ++ tail)) sizes with
+  | (outs, e, st) => e = None /\ outs = chop sizes (concat pieces)
+  end.
+Proof. exact response_roundtrip. Qed.
+Print Assumptions C19_response_roundtrip.
+
+(* the chunked-framing decision generated from run_wsgi.write: exactly when there is no
+   Content-Length header (any letter case), the method is not HEAD, the status is outside 1xx, 204
+   and 304, and the server speaks HTTP/1.1 *)
+Theorem C19_chunked_decision : forall proto method code headers,
+  uses_chunked proto method code headers =
+    negb (mem_str CONTENT_LENGTH_LC (lower_keys headers)) && negb (list_eqb method HEAD)
+    && negb ((100 <=? code) && (code <? 200)) && negb ((code =? 204) || (code =? 304))
+    && str_geb proto HTTP11.
+Proof. exact chunked_decision. Qed.
+Print Assumptions C19_chunked_decision.
+
+Example C19_response_example :
+  respond HTTP11 [71; 69; 84] None [83] [68] [50; 48; 48; 32; 79; 75] [([88], [49])] [[97; 98]; []; [99]]
+  = Some (HTTP11 ++ [32; 50; 48; 48; 32; 79; 75; 13; 10] ++ [83; 101; 114; 118; 101; 114; 58; 32; 83; 13; 10]
+          ++ [68; 97; 116; 101; 58; 32; 68; 13; 10] ++ [88; 58; 32; 49; 13; 10]
+          ++ te_name ++ [58; 32] ++ te_value ++ [13; 10] ++ conn_name ++ [58; 32] ++ conn_value ++ [13; 10; 13; 10]
+          ++ [50; 13; 10; 97; 98; 13; 10; 49; 13; 10; 99; 13; 10; 48; 13; 10; 13; 10])
+  /\ uses_chunked [72; 84; 84; 80; 47; 49; 46; 48] [71; 69; 84] 200 [] = false
+  /\ uses_chunked HTTP11 HEAD 200 [] = false
+  /\ uses_chunked HTTP11 [71; 69; 84] 204 [] = false
+  /\ uses_chunked HTTP11 [71; 69; 84] 200 [([67; 79; 78; 84; 69; 78; 84; 45; 108; 101; 110; 103; 116; 104], [51])] = false.
+Proof. vm_compute. repeat split. Qed.
+Print Assumptions C19_response_example.
+
+(* make_environ on an origin-form target: however the client percent-encodes the path bytes
+   (keep: which bytes it leaves literal), PATH_INFO is the percent-decoded path and QUERY_STRING the
+   text after the first question mark *)
+Theorem C19_environ_path : forall keep b q hs,
+  forallb (fun c => c <? 256) b = true -> query_ok q = true ->
+  match b with c :: _ => negb (c =? SLASH) | [] => true end = true ->
+  exists e, make_environ (SLASH :: pct_enc keep b ++ qpart q) hs = Some e /\
+            en_path_info e = wsgi_encoding_dance (utf8_decode_replace (SLASH :: b)) /\
+            en_query_string e = qtext q.
+Proof. exact environ_path. Qed.
+Print Assumptions C19_environ_path.
+
+(* for a path that is UTF-8 text, PATH_INFO carries exactly the bytes of the path *)
+Theorem C19_environ_path_utf8 : forall keep s q hs,
+  valid_text s = true -> query_ok q = true ->
+  match s with c :: _ => negb (c =? SLASH) | [] => true end = true ->
+  exists e, make_environ (SLASH :: pct_enc keep (utf8_encode s) ++ qpart q) hs = Some e /\
+            en_path_info e = utf8_encode (SLASH :: s) /\ en_query_string e = qtext q.
+Proof. exact environ_path_utf8. Qed.
+Print Assumptions C19_environ_path_utf8.
+
+(* /caf%C3%A9/x?a=1 with Host, a repeated header, an underscore name and Content-Type *)
+Example C19_environ_example :
+  make_environ [47; 99; 97; 102; 37; 67; 51; 37; 65; 57; 47; 120; 63; 97; 61; 49]
+    [([72; 111; 115; 116], [104]); ([88; 45; 65], [49]); ([120; 45; 97], [50]); ([88; 95; 66], [51]);
+     ([67; 111; 110; 116; 101; 110; 116; 45; 84; 121; 112; 101], [116])]
+  = Some {| en_path_info := [47; 99; 97; 102; 195; 169; 47; 120]; en_query_string := [97; 61; 49];
+            en_request_uri := [47; 99; 97; 102; 37; 67; 51; 37; 65; 57; 47; 120; 63; 97; 61; 49];
+            en_headers := [(HTTP_HOST, [104]); (HTTP_ ++ [88; 95; 65], [49; 44; 50]);
+                           ([67; 79; 78; 84; 69; 78; 84; 95; 84; 89; 80; 69], [116])];
+            en_chunked := false |}.
+Proof. vm_compute. reflexivity. Qed.
+Print Assumptions C19_environ_example.
